@@ -125,6 +125,11 @@ func jsonForMap(ma *an.Map) string {
 	keyFromJson := "k as " + keyName
 	if keyName == "int" {
 		keyFromJson = "int.parse(k)"
+	} else if named, isNamed := ma.Key.(*an.Named); isNamed {
+		// named integers, like IDs, are typedef of int
+		if basic, isBasic := named.Underlying.(*an.Basic); isBasic && basic.Kind() == an.BKInt {
+			keyFromJson = "int.parse(k)"
+		}
 	}
 
 	name, id := typeName(ma), jsonID(ma)
